@@ -499,6 +499,11 @@ class Interp:
                 return
             self.eval(st.value, env)
         elif isinstance(st, ast.Assign):
+            bat = self.loops.get('before_assign_to')
+            if bat:
+                for tgt in st.targets:
+                    if isinstance(tgt, ast.Name) and tgt.id in bat:
+                        bat[tgt.id](p, EnvView(env, p))
             v = self.eval(st.value, env)
             for tgt in st.targets:
                 self.assign(tgt, v, env)
@@ -575,11 +580,23 @@ class Interp:
                     env[v] = IntV(self.path.fresh_int(v), cur.tag)
                 elif isinstance(cur, BoolV):
                     env[v] = BoolV(self.path.fresh_bool(v))
+                elif isinstance(cur, TupleV) and ('havoc_' + v) not in self.loops and self._plain(cur):
+                    env[v] = self._fresh_like(cur, v)      # immutable tuple of ints/bools: arbitrary such tuple
                 else:
                     hv = self.loops.get('havoc_' + v)
                     if hv is None:
                         raise Unsupported('loop modifies %r of unsupported kind %s' % (v, type(cur).__name__))
                     env[v] = hv(self.path, cur)
+
+    def _plain(self, v):
+        return isinstance(v, (IntV, BoolV)) or (isinstance(v, TupleV) and all(self._plain(x) for x in v.items))
+
+    def _fresh_like(self, v, hint):
+        if isinstance(v, IntV):
+            return IntV(self.path.fresh_int(hint), v.tag)
+        if isinstance(v, BoolV):
+            return BoolV(self.path.fresh_bool(hint))
+        return TupleV([self._fresh_like(x, hint) for x in v.items])
 
     def exec_while(self, st, env):
         p = self.path
@@ -725,6 +742,8 @@ class Interp:
             raise Unsupported('assignment target %s' % type(tgt).__name__)
 
     def unpack(self, v, n):
+        if isinstance(v, ObjV) and hasattr(v, 'unpack_items'):
+            v = TupleV(v.unpack_items)
         if isinstance(v, (TupleV, ListV)):
             if len(v.items) != n:
                 raise PyRaise('ValueError')
@@ -862,6 +881,10 @@ class Interp:
                 inner.update(zip(_names, args))
                 return self.eval(_body, inner)
             return FuncV('<lambda>', lam)
+        if isinstance(node, ast.Set):
+            o = ObjV('SetDisplay', {}, name='{...}')
+            o.items = [self.eval(e, env) for e in node.elts]
+            return o
         if isinstance(node, ast.Dict):
             keys = []
             for kx in node.keys:
@@ -951,6 +974,9 @@ class Interp:
             return TupleV(a.items + b.items)
         if isinstance(a, ListV) and isinstance(op, ast.Mult) and isinstance(b, IntV) and z3.is_int_value(z3.simplify(b.t)):
             return ListV(a.items * z3.simplify(b.t).as_long())
+        if isinstance(a, ListV) and isinstance(op, ast.Mult) and isinstance(b, IntV) and self.loops.get('list_repeat'):
+            # [x] * n with symbolic n: a list of n copies, given by the contract as an abstract list object
+            return self.loops['list_repeat'](self.path, a, b)
         if isinstance(a, ObjV):
             name = {'BitAnd': '__and__', 'BitOr': '__or__', 'Sub': '__sub__', 'BitXor': '__xor__'}.get(type(op).__name__)
             if inplace:
@@ -996,6 +1022,9 @@ class Interp:
         if isinstance(op, (ast.Eq, ast.NotEq)):
             if isinstance(a, ObjV) and '__eq__' in a.fields:
                 r = truthy(self.call(a.fields['__eq__'], [a, b], {}))
+                return r if isinstance(op, ast.Eq) else Not(r)
+            if isinstance(b, ObjV) and '__eq__' in b.fields:
+                r = truthy(self.call(b.fields['__eq__'], [b, a], {}))
                 return r if isinstance(op, ast.Eq) else Not(r)
             if isinstance(a, (TupleV, ListV)) and type(a) is type(b):
                 if len(a.items) != len(b.items):
@@ -1064,6 +1093,13 @@ class Interp:
                 return TupleV(items) if isinstance(o, TupleV) else ListV(items)
             if isinstance(o, ObjV) and '__getslice__' in o.fields:
                 return o.fields['__getslice__'](self, env, o, sl)
+            if isinstance(o, SeqV) and sl.upper is None and sl.step is None and sl.lower is not None:
+                lo = self.eval(sl.lower, env)
+                if not isinstance(lo, IntV):
+                    raise Unsupported('slice bound of kind %s' % type(lo).__name__)
+                # python clamps slice bounds; a meaningful suffix needs 0 <= lo <= len
+                p.oblige('slice@%s' % o.name, 'index', And(lo.t >= 0, lo.t <= o.length))
+                return SeqV(lambda t, _o=o, _lo=lo.t: _o.at(t + _lo), o.length - lo.t, '%s[lo:]' % o.name)
             raise Unsupported('slice of %s' % type(o).__name__)
         i = self.eval(sl, env)
         if isinstance(o, SeqV):
